@@ -283,8 +283,16 @@ func ConstNames(pk *packages.Package, T types.Type) map[int64]string {
 	sc := pk.Types.Scope()
 	for _, n := range sc.Names() {
 		c, ok := sc.Lookup(n).(*types.Const)
-		if !ok || !types.Identical(c.Type(), T) {
+		if !ok {
 			continue
+		}
+		if !types.Identical(c.Type(), T) {
+			// enum declared with an untyped iota: accept constants named after the type
+			tn, isNamed := T.(*types.Named)
+			b, isBasic := c.Type().(*types.Basic)
+			if !isNamed || !isBasic || b.Kind() != types.UntypedInt || !strings.HasPrefix(n, tn.Obj().Name()) || n == tn.Obj().Name() {
+				continue
+			}
 		}
 		if v, ok := constant.Int64Val(c.Val()); ok {
 			if old, dup := out[v]; !dup || n < old {
